@@ -20,6 +20,37 @@ impl OptBits {
   }
 }
 
+/// What happens between MIR generation and LIR lowering.
+#[derive(Clone, Debug, PartialEq, Eq)]
+pub enum Build {
+  /// `optimize_sources` with this configuration ("opt:<bits>"; opt:0 still runs CCP and DCE)
+  Config(OptBits),
+  /// no optimisation at all ("raw")
+  Raw,
+  /// exactly one pass, once, through hook H3 ("pass:<name>")
+  Pass(String),
+}
+
+impl Build {
+  pub fn parse(s: &str) -> Build {
+    let s = s.trim();
+    if s == "raw" {
+      Build::Raw
+    } else if let Some(p) = s.strip_prefix("pass:") {
+      Build::Pass(p.to_string())
+    } else {
+      Build::Config(OptBits(s.trim_start_matches("opt:").parse().expect("build")))
+    }
+  }
+  pub fn name(&self) -> String {
+    match self {
+      Build::Config(b) => format!("opt:{}", b.0),
+      Build::Raw => "raw".to_string(),
+      Build::Pass(p) => format!("pass:{p}"),
+    }
+  }
+}
+
 pub struct Compiled {
   /// TypeScript text for the entry module (common code + call of main)
   pub ts: String,
@@ -43,6 +74,10 @@ pub fn module_ref(heap: &mut Heap, dotted: &str) -> ModuleReference {
 
 /// `sources`: dotted module name -> text (user modules only; std is added unless `with_std` is false).
 pub fn compile(sources: &BTreeMap<String, String>, entry: &str, opt: OptBits, with_std: bool) -> Outcome {
+  compile_build(sources, entry, &Build::Config(opt), with_std)
+}
+
+pub fn compile_build(sources: &BTreeMap<String, String>, entry: &str, build: &Build, with_std: bool) -> Outcome {
   let mut heap = Heap::new();
   let mut handles: HashMap<ModuleReference, String> =
     if with_std { samlang_parser::builtin_std_raw_sources(&mut heap) } else { HashMap::new() };
@@ -51,14 +86,14 @@ pub fn compile(sources: &BTreeMap<String, String>, entry: &str, opt: OptBits, wi
     handles.insert(m, text.clone());
   }
   let entry_ref = module_ref(&mut heap, entry);
-  compile_in(&mut heap, &handles, entry_ref, opt)
+  compile_in(&mut heap, &handles, entry_ref, build)
 }
 
 pub fn compile_in(
   heap: &mut Heap,
   handles: &HashMap<ModuleReference, String>,
   entry_ref: ModuleReference,
-  opt: OptBits,
+  build: &Build,
 ) -> Outcome {
   use crate::util::guarded;
   let mut error_set = samlang_errors::ErrorSet::new();
@@ -92,7 +127,15 @@ pub fn compile_in(
     Ok(m) => m,
     Err(message) => return Outcome::Crashed { stage: "mir".into(), message },
   };
-  let mir = match guarded(|| samlang_optimization::optimize_sources(heap, mir, &opt.config())) {
+  let optimized = guarded(|| match build {
+    Build::Config(opt) => samlang_optimization::optimize_sources(heap, mir, &opt.config()),
+    Build::Raw => mir,
+    // "a+b": pass a then pass b (inlining leaves argument bindings for CCP to substitute)
+    Build::Pass(p) => p
+      .split('+')
+      .fold(mir, |m, one| samlang_optimization::verif_hooks::run_single_pass(heap, m, one)),
+  });
+  let mir = match optimized {
     Ok(m) => m,
     Err(message) => return Outcome::Crashed { stage: "optimize".into(), message },
   };
